@@ -8,16 +8,19 @@ import qsp_common as Q
 LEVEL = "proof"
 TECHNIQUE = ("Coq theorems over any commutative ring with 2 invertible: PolynomialToLaurentForm denotes p((w+1/w)/2); the tables defined "
              "by the recurrences satisfy T_n((w+1/w)/2) = (w^n+w^-n)/2 and (w-1/w)U_n = w^(n+1)-w^-(n+1); cheb2poly denotes the "
-             "Chebyshev sum (both kinds, every length); Coq-verified instance certificates check_p2l (a list is the Laurent form of "
+             "Chebyshev sum (both kinds, every length); poly2cheb (top-down elimination with the leading coefficients 2^(n-1) / 2^n) "
+             "denotes its input and so inverts cheb2poly and is inverted by it, for every input (Theory/P2CT.v); Coq-verified instance certificates check_p2l (a list is the Laurent form of "
              "p), lp_same, check_p2c (poly2cheb output denotes p); executable exact models of poly2laurent (incl. parity refusal at "
              "1e-8 and numpy's trimming), cheb2poly, poly2cheb run against the implementation on generated real/complex vectors")
-LEVEL_TEXT = ("Props/C11.v: 7 theorems (4 over any ring and every length; 3 certificate-soundness theorems over Q/C). On every run the "
+LEVEL_TEXT = ("Props/C11.v: 11 theorems (8 over any ring and every length, incl. the inverse laws of the Chebyshev helpers; 3 "
+              "certificate-soundness theorems over Q/C). On every run the "
               "exact models are certified per instance against the proved PolynomialToLaurentForm / cheb2poly denotations, and the "
               "implementation's outputs are compared with the models: exactly for integer-valued inputs, under a normwise rounding "
               "budget otherwise; refusal of mixed parity is compared with the model's decision.")
 LEVEL_NOTE = ("Trusted: Coq kernel + vm_compute, extraction, driver.ml, harness, numpy/scipy as executors. The ring-level theorems are "
               "axiom-free; the certificate theorems over R/C use the stdlib real-number axioms + Classical_Prop.classic. The "
-              "poly2cheb/cheb2poly inverse law is certified per instance (check_p2c), not proved for all inputs.")
+              "poly2cheb/cheb2poly inverse laws are theorems about the model for all inputs and are additionally certified per instance "
+              "(check_p2c).")
 RULE = ("real and complex vectors of degree 1..30 (0..30 for the Chebyshev helpers) of either parity (helpers: any), families int / dyadic / "
         "generic, interior zeros in ~30%, trailing zeros in ~10%; mixed-parity vectors with the minority part from 1e-6 to 1; distinct by "
         "JSON; non-trivial = degree >= 2")
